@@ -72,6 +72,8 @@ func (r *runner) judgeAccept(stage string, kind txKind, name string, v verdict, 
 		// a field that takes no part in the authorisation (transaction id
 		// malleability): recorded only
 		r.c.Probe("utxo-unused-field-edit-accepted")
+	case kind == kUtx && tm != nil && tm.scratch:
+		r.violate("utxo-forgery", "utxo-forgery/"+tm.comp, "%s: a confidential spend written without any key of the outputs it consumes (%s; %s) is accepted: the outputs are spent without the destination's keys", stage, name, tm.src.desc)
 	case kind == kUtx && v.reason == "edited-ring-signed-transaction":
 		comp := "unknown"
 		if tm != nil {
@@ -181,6 +183,14 @@ func (r *runner) round(round int, honest []*sent, forged []*tampered) {
 
 	// 2. tampering on the way to the replica's mempool
 	tams := append([]*tampered{}, forged...)
+	if r.utxo && w.utxoNext > 0 {
+		for k, n := 0, 1+r.tm.Int(2); k < n; k++ {
+			if th := r.genTheft(r.tm); th != nil {
+				tams = append(tams, th)
+				c.Probe("theft-built")
+			}
+		}
+	}
 	idxOf := map[txKind][]int{}
 	for k := txKind(0); k < nKinds; k++ {
 		idxOf[k] = applicable(k)
@@ -218,7 +228,7 @@ func (r *runner) round(round int, honest []*sent, forged []*tampered) {
 		obj, derr := decodeTx(tm.raw)
 		acc := false
 		if derr == nil {
-			if o0, e0 := decodeTx(s.raw); e0 == nil && o0.Hash() == obj.Hash() {
+			if o0, e0 := decodeTx(s.raw); !tm.scratch && e0 == nil && o0.Hash() == obj.Hash() {
 				tm.sameH = true
 				c.Probe("tampered-same-tx-hash")
 			}
@@ -241,10 +251,16 @@ func (r *runner) round(round int, honest []*sent, forged []*tampered) {
 		if acc && tm.v.ok {
 			c.Probe("tampered-admitted-as-other-sender")
 		}
+		if hotTamper[tm.name] {
+			c.Probe("offered/twin/" + tm.name + "/" + s.kind.String())
+		}
 		switch {
 		case s.kind == kUtx:
 			c.Probe("utxo-tampered-judged")
 			c.Probe("offered/utxo-" + tm.comp)
+			if tm.comp == "ring-signature" && s.utx != nil && s.utx.ring > 0 && !tm.unused {
+				c.Probe("offered/utxo-ring-signature/" + map[bool]string{true: "short-ring", false: "mlsag"}[s.utx.ring == 1] + map[bool]string{true: "/two-inputs", false: ""}[len(s.utx.spent) > 1])
+			}
 		case tm.field:
 			c.Probe("offered/field-" + s.kind.String())
 		default:
@@ -286,6 +302,12 @@ func (r *runner) round(round int, honest []*sent, forged []*tampered) {
 
 	// 4. tampered blocks offered to the replica
 	r.variants(round, tams, txs, raws, subs, warm)
+	if r.stop {
+		return
+	}
+
+	// 4b. blocks verified while a forged transaction of theirs is inside the replica's AddTx
+	r.inflight(round, tams, honest, txs, subs, warm)
 	if r.stop {
 		return
 	}
@@ -418,6 +440,9 @@ func (r *runner) variants(round int, tams []*tampered, txs types.Txs, raws [][]b
 		}
 		if t.src.kind == kUtx {
 			c.Probe("utxo-variant-judged")
+		}
+		if t.scratch {
+			c.Probe("theft-variant-judged")
 		}
 		c.Evals(1)
 		c.Finger("v", t.name, mode, accepted)
